@@ -106,9 +106,10 @@ pub fn run_batch(members: &[&Tmpl], n_transcripts: usize, n_proofs: usize, actio
     let mut ts: Vec<Transcript> = (0..n_transcripts).map(|i| members[i % members.len().max(1)].inst.transcript()).collect();
     let stmts: Vec<Stmt> = members.iter().map(|m| m.stmt.clone()).collect();
     let proofs: Vec<Proof> = (0..n_proofs).map(|i| members[i % members.len().max(1)].proof.clone()).collect();
-    match Proof::verify_batch(&mut ts, &stmts, &proofs, action) {
-        Ok(v) => BatchOutcome { ok: true, masks: v.into_iter().map(|m| m.map(|x| x.blindings().unwrap())).collect() },
-        Err(_) => BatchOutcome { ok: false, masks: vec![] },
+    match std::panic::catch_unwind(std::panic::AssertUnwindSafe(|| Proof::verify_batch(&mut ts, &stmts, &proofs, action))) {
+        Ok(Ok(v)) => BatchOutcome { ok: true, masks: v.into_iter().map(|m| m.map(|x| x.blindings().unwrap())).collect() },
+        Ok(Err(_)) => BatchOutcome { ok: false, masks: vec![] },
+        Err(_) => BatchOutcome { ok: false, masks: vec![None; 1_000_000] }, // panic: reported through the length oracle
     }
 }
 
@@ -125,6 +126,7 @@ pub fn check_batch(out: &mut Out, prop: &str, label: &str, members: &[&Tmpl], n_
     let shapes = members.iter().all(|m| m.points_ok && (1usize << m.rounds) == m.inst.n * m.inst.m);
     let all_valid = members.iter().all(|m| m.valid);
     let expect_ok = lengths_ok && uniform && shapes && (action == VerifyAction::RecoverOnly || all_valid);
+    out.oracle(&format!("{}:no-panic", prop), o.masks.len() != 1_000_000, &key, "verify_batch panicked");
     out.oracle(&format!("{}:batch-verdict", prop), o.ok == expect_ok, &key, &format!("real={} expected={} first_invalid={:?}", o.ok, expect_ok, members.iter().position(|m| !m.valid)));
     if o.ok {
         out.oracle(&format!("{}:result-length", prop), o.masks.len() == k, &key, &format!("len={} k={}", o.masks.len(), k));
